@@ -425,6 +425,28 @@ fn eval_cs(ctx: &Ctx, case: &CsChunkCase) -> Verdict {
         offsets.push(len - 1);
     }
     offsets.push(len);
+    // structural boundaries wherever they lie: the first bytes of every BCF record (its two length
+    // fields) and the start of every BGZF block -- the places where "no more data" is a legitimate
+    // answer and a failing reader could be mistaken for it
+    match &case.container {
+        Container::BcfRaw => {
+            for start in crate::gen::bcf::to_bcf(&case.cs).1.into_iter().take(40) {
+                offsets.extend([start, start + 1, start + 4, start + 7].into_iter().filter(|o| *o < len));
+            }
+        }
+        Container::VcfGz(_) | Container::Bcf(_) => {
+            let mut start = 0usize;
+            let mut blocks = 0;
+            while start + 18 <= len && blocks < 60 {
+                offsets.push(start);
+                start += u16::from_le_bytes([data[start + 16], data[start + 17]]) as usize + 1;
+                blocks += 1;
+            }
+        }
+        Container::Vcf => {}
+    }
+    offsets.sort_unstable();
+    offsets.dedup();
     let mut surfaced = 0u64;
     for &o in &offsets {
         // first chunk large enough that detection is not the issue under test here
@@ -638,7 +660,7 @@ fn pipe_strategy() -> impl Strategy<Value = PipeCase> {
         .prop_map(|(cs, container, first)| PipeCase { cs, container, first })
 }
 
-fn run_with_paced_stdin(ctx: &Ctx, args: &[&str], bytes: &[u8], first: usize, dir: &std::path::Path) -> Result<crate::cli::Run, Failure> {
+pub fn run_with_paced_stdin(ctx: &Ctx, args: &[&str], bytes: &[u8], first: usize, dir: &std::path::Path) -> Result<crate::cli::Run, Failure> {
     use std::os::fd::AsRawFd;
     use std::process::{Command, Stdio};
     ctx.subprocess_runs.fetch_add(1, Ordering::Relaxed);
@@ -878,7 +900,7 @@ pub fn check(ctx: &Ctx) -> Check {
         }),
         Box::new(RandomPart {
             name: "callset-chunks-and-faults",
-            rule: "call sets in all four containers (generated BGZF layouts) through the hooked genotype::reader::Builder::build_from_bufread (format/compression detection included) and the site-reader loop, threads 1/2/4: first chunk length enumerated 1..min(len,300) (+ one-byte-at-a-time for the shortest), result (spectrum or error) must equal the one-slice result; read fault at every offset < 300 plus 24 sampled offsets, the last byte and end-of-data, each as a persistent and as a one-off fault of kind Other, and as persistent faults of kind UnexpectedEof (what a truncated lower layer reports) and BrokenPipe: if the error was returned, creation must fail (UnexpectedEof inside a BGZF block header is an open dependency finding, excluded by offset and counted); non-trivial = a first chunk shorter than the container's detection window, or a fault that reached the consumer",
+            rule: "call sets in all four containers (generated BGZF layouts) through the hooked genotype::reader::Builder::build_from_bufread (format/compression detection included) and the site-reader loop, threads 1/2/4: first chunk length enumerated 1..min(len,300) (+ one-byte-at-a-time for the shortest), result (spectrum or error) must equal the one-slice result; read fault at every offset < 300 plus 24 sampled offsets, the first bytes of every BCF record, the start of every BGZF block, the last byte and end-of-data, each as a persistent and as a one-off fault of kind Other, and as persistent faults of kind UnexpectedEof (what a truncated lower layer reports) and BrokenPipe: if the error was returned, creation must fail (UnexpectedEof inside a BGZF block header is an open dependency finding, excluded by offset and counted); non-trivial = a first chunk shorter than the container's detection window, or a fault that reached the consumer",
             cases: ctx.tier.pick(64, 1500),
             strategy: Box::new(|| cs_case_strategy().boxed()),
             eval: Box::new(eval_cs),
